@@ -376,6 +376,22 @@ void xop(string *a) {
       if (q) destruct(q);
     }
     break;
+  case "xsco":    // xsco <id> <file> <fn> [arg]: call_other on a FILE NAME (the driver finds or loads the object itself)
+    {
+      mixed r;
+      if (sizeof(a) > 4) e = catch(r = call_other(a[2], a[3], a[4])); else e = catch(r = call_other(a[2], a[3]));
+      rec("XR " + a[1] + " " + (e ? "err:" + replace_string(replace_string(e, "\n", ""), " ", "_") : (stringp(r) ? replace_string(replace_string(r, "\n", "\\n"), " ", "_") : (intp(r) ? "int:" + r : "other"))));
+    }
+    break;
+  case "xsaco":   // xsaco <id> <fn> <file> <file> ...: the array form of call_other with file names
+    {
+      mixed r; string res; int k;
+      e = catch(r = call_other(a[3..], a[2]));
+      res = "";
+      if (arrayp(r)) for (k = 0; k < sizeof(r); k++) res += (k ? "," : "") + (stringp(r[k]) ? r[k] : (intp(r[k]) ? "int:" + r[k] : "other"));
+      rec("XR " + a[1] + " " + (e ? "err:" + replace_string(replace_string(e, "\n", ""), " ", "_") : "arr:" + res));
+    }
+    break;
   case "xaco":    // xaco <id> <fn> <ob> <ob> ...: the array form of call_other
     {
       mixed r; object *obs; string res; int k;
@@ -711,7 +727,7 @@ void do_op(string op) {
   case "mk": case "put": case "cyc": case "uncyc": case "share": case "cov": case "covf": case "itv": case "drop": case "clearall": case "rb": case "many": case "use": case "memstat": case "rcall": case "dslot": case "dkids": case "pinfo": case "pdump":
     cop(a);
     break;
-  case "xco": case "xaco": case "xreload": case "comp": case "coinfo": case "reload":
+  case "xco": case "xaco": case "xsco": case "xsaco": case "xreload": case "comp": case "coinfo": case "reload":
     xop(a);
     break;
   case "uclone": case "uload": case "useteuid": case "uexport": case "uids": case "ucall": case "ucf": case "uvs": case "umclone":
